@@ -189,7 +189,8 @@ date_parse = Unit(
                 "if (vf_t[0] > 'A' && vf_t[0] < 'Z') { VF_HTTP_BRANCH_DROPPED; return; }", 1),
                (r'\bt\.length\(\)', 'g_len', None), (r'\bt\.data\(\)', 'vf_t', None), (r'(?<![\w.])t\[', 'vf_t[', None),
                (r'\b_t\b', 'g_t', None), (r'\bnan\(\)', 'vf_nan()', None), (r'pow\(10\.0, 1-i\)', 'vf_pow10(1 - i)', 1),
-               (r'construct\(local \? LOCAL : UTC, y, m, d, h, mi, s\);', 'Date_construct(local, y, m, d, h, mi, s);', 1)],
+               (r'construct\(local \? LOCAL : UTC, y, m, d, h, mi, s\);', 'Date_construct(local, y, m, d, h, mi, s);', 1),
+               (r'(g_t \+= tz \* 60 \+ ms;)', r'g_tz = tz; \1', None)],
         loops=[(r'while\s*\(myisdigit', 0, '''
   __CPROVER_assigns(i)
   __CPROVER_loop_invariant(1 <= i && i <= g_len - DOFF(p, vf_t))
@@ -198,7 +199,7 @@ date_parse = Unit(
     text=PRE + ISDIG + r'''
 #define DOFF(a, b) ((long)__CPROVER_POINTER_OFFSET(a) - (long)__CPROVER_POINTER_OFFSET(b))
 #define VF_HTTP_BRANCH_DROPPED
-double g_t, g_base; int g_len;
+double g_t, g_base; int g_len, g_tz;   /* g_tz: the zone correction in minutes that is added to the instant */
 int g_local, g_y, g_m, g_d, g_h, g_mi, g_s, g_constructed;
 double nondet_double(void);
 static double vf_nan(void) { return nondet_double(); }
@@ -214,6 +215,11 @@ __CPROVER_requires(0 <= g_len && g_len <= NMAX && __CPROVER_is_fresh(vf_t, g_len
 /* "2017-05-18T03:24:12Z" shapes: the fields handed to construct are the digits of the text, and a numeric zone shifts the instant */
 /* whenever a Date is constructed, the fields parsed from the text are non-negative and the time of day is in range */
 __CPROVER_ensures(g_constructed ==> (g_y >= 0 && g_m >= 0 && g_d >= 0 && 0 <= g_h && g_h <= 23 && 0 <= g_mi && g_mi <= 59 && 0 <= g_s && g_s <= 59))
+/* an ISO string with a numeric zone offset denotes the UTC instant shifted by that offset: "+hh:mm" / "+hhmm" / "+hh" are SUBTRACTED, "-.." added, "Z" nothing */
+__CPROVER_ensures((g_len == 20 && SHAPE && vf_t[19] == 'Z' && g_constructed) ==> g_tz == 0)
+__CPROVER_ensures((g_len == 25 && SHAPE && vf_t[22] == ':' && (vf_t[19] == '+' || vf_t[19] == '-') && g_constructed) ==> g_tz == (vf_t[19] == '+' ? -1 : 1) * (D2(20) * 60 + D2(23)))
+__CPROVER_ensures((g_len == 24 && SHAPE && (vf_t[19] == '+' || vf_t[19] == '-') && g_constructed) ==> g_tz == (vf_t[19] == '+' ? -1 : 1) * (D2(20) * 60 + D2(22)))
+__CPROVER_ensures((g_len == 22 && SHAPE && (vf_t[19] == '+' || vf_t[19] == '-') && g_constructed) ==> g_tz == (vf_t[19] == '+' ? -1 : 1) * (D2(20) * 60))
 #ifdef ZONES
 __CPROVER_ensures((g_len == 20 && SHAPE && vf_t[19] == 'Z' && g_constructed) ==> (g_y == (vf_t[0] - '0') * 1000 + (vf_t[1] - '0') * 100 + D2(2) && g_m == D2(5) && g_d == D2(8) && g_h == D2(11) && g_mi == D2(14) && g_s == D2(17) && !g_local && g_t == g_base))
 __CPROVER_ensures((g_len == 25 && SHAPE && vf_t[19] == '+' && vf_t[22] == ':' && g_constructed) ==> g_t == g_base - (double)((D2(20) * 60 + D2(23)) * 60))
@@ -222,7 +228,7 @@ __CPROVER_ensures((g_len == 24 && SHAPE && vf_t[19] == '+' && g_constructed) ==>
 __CPROVER_ensures((g_len == 22 && SHAPE && vf_t[19] == '-' && g_constructed) ==> g_t == g_base + (double)(D2(20) * 60 * 60))
 __CPROVER_ensures((g_len == 19 && SHAPE && g_constructed) ==> g_local)
 #endif
-__CPROVER_assigns(g_t, g_local, g_y, g_m, g_d, g_h, g_mi, g_s, g_constructed)
+__CPROVER_assigns(g_t, g_tz, g_local, g_y, g_m, g_d, g_h, g_mi, g_s, g_constructed)
 @@dp@@
 void vf_harness(void) { const char* t; Date_parse(t); VF_CANARY(); }
 ''',
@@ -236,3 +242,42 @@ void vf_harness(void) { const char* t; Date_parse(t); VF_CANARY(); }
 UNITS += [parseInt, parseInt_value, date_parse]
 
 date_parse.thorough_variants = ['ZONES']
+
+# The WHOLE Date::calc with the real floating-point entry expressions (no R12), for instants t = 86400*day + sec, sec an integer number of seconds
+calc_whole = Unit(
+    'Date_calc_whole_float', 'C19',
+    cuts=[Cut('yft', DC, r'^static int yearFromTime\(double t\)\s*$'), MONTHS(), LEAPM(), Cut('m', DC, r'^#define timeFromYearAsDays\(y\)', kind='define'),
+          Cut('ily', DC, r'^#define isLeapYear\(t\)', kind='define'), Cut('dwy', DC, r'^#define dayWithinYear\(t, year\)', kind='define'),
+          Cut('sid', DC, r'^#define secsInDay', kind='define'),
+          Cut('calc', DC, r'^DateData Date::calc\(double t\)\s*$', rules=[(r'DateData date;', '', 1), (r'memset\(&date, 0, sizeof\(date\)\);', '', 1), (r'return date;', 'return;', None)])],
+    text=PRE + r'''
+typedef struct DateData { int year, month, day, hours, minutes, seconds, weekDay; } DateData;
+@@sid@@
+@@diy@@
+@@m@@
+@@ily@@
+@@dwy@@
+@@md@@
+static int yearFromTime(double t) @@yft@@
+DateData date;
+static void Date_calc(double t) @@calc@@
+int nondet_int(void);
+void vf_harness(void) {
+  int day = nondet_int(), sec = nondet_int();
+  __CPROVER_assume(DAY_LO <= day && day <= DAY_HI && 0 <= sec && sec < 86400);
+  double t = (double)day * 86400.0 + (double)sec;
+  Date_calc(t);
+  int leap = SPEC_IS_LEAP(date.year) ? 1 : 0;
+  __CPROVER_assert(1 <= date.year && date.year <= 9999 && 1 <= date.month && date.month <= 12 && 1 <= date.day && date.day <= 31, "fields in range");
+  __CPROVER_assert(SPEC_DAYS_FROM_YEAR(date.year) + SPEC_CUM_DAYS[leap][date.month] + date.day - 1 == day, "year/month/day are those of the day containing t (floating entry floor(t/86400) included)");
+  __CPROVER_assert(date.weekDay == (((day + 4) % 7) + 7) % 7, "weekday of the day containing t, also before 1970");
+  VF_CANARY();
+}
+''',
+    entry=None, floor=3, expect=['assertion'], unwind=15, timeout=1500, tier='thorough',
+    variants={'y1969_1971': ['-DDAY_LO=-366', '-DDAY_HI=730']},
+    kind='bounded', bound='days of 1969..1971 (both signs of t), every integer second',
+    desc='the whole Date::calc in floating point, real yearFromTime entry included: year/month/day/weekday for every second of 1969-1971',
+    functions=['Date::calc', 'yearFromTime (floating entry)'],
+)
+UNITS += [calc_whole]
